@@ -165,6 +165,7 @@ def run_bridge(case):
         }
     info = {"crashed": {n: type(t.exc).__name__ for n, t in s.threads.items() if t.exc is not None},
             "pending": {n: t.label for n, t in s.threads.items() if not t.done},
+            "queue_bounds": base.queue_bounds(devs["in"], conns["in"]),
             "wire_left": len(devs["in"].wire) + len(devs["out"].wire),
             "spont_left": len(spont["in"]) + len(spont["out"]), "done_at": out.get("done_at"),
             "labelset": sorted({base.canon_label(t, l) for (t, l, k) in s.trace if k == "run"})}
